@@ -76,9 +76,11 @@ def ItemFits (dm : Dims) (it : Item) : Prop :=
 
 instance (dm : Dims) (it : Item) : Decidable (ItemFits dm it) := by unfold ItemFits; infer_instance
 
-/-- what the generators produce: `n` items (present or padding), none larger than the container on any axis -/
+/-- what the generators produce: a container with POSITIVE sides (with a zero side the normalised observation
+of the code is 0/0 = nan, while Lean's `x / 0 = 0` would make the bounds hold vacuously; audit r1 entry 17) and `n`
+items (present or padding), none larger than the container on any axis -/
 def validReset (dm : Dims) (n : Nat) (items : List Item) (itemsMask : List Bool) : Prop :=
-  0 ≤ dm.cx ∧ 0 ≤ dm.cy ∧ 0 ≤ dm.cz ∧ items.length = n ∧ itemsMask.length = n ∧ ∀ it ∈ items, ItemFits dm it
+  0 < dm.cx ∧ 0 < dm.cy ∧ 0 < dm.cz ∧ items.length = n ∧ itemsMask.length = n ∧ ∀ it ∈ items, ItemFits dm it
 
 instance (dm : Dims) (n : Nat) (items : List Item) (m : List Bool) : Decidable (validReset dm n items m) := by
   unfold validReset; infer_instance
@@ -163,6 +165,7 @@ theorem reset_inv (cfg : Cfg) (rnd : Rat → Rat) (dm : Dims) (maxEms n : Nat) (
     (itemsMask : List Bool) (h : validReset dm n items itemsMask) :
     BoundsInv dm (reset cfg rnd dm maxEms items itemsMask).1 := by
   obtain ⟨hx, hy, hz, _, _, hi⟩ := h
+  have hx := Int.le_of_lt hx; have hy := Int.le_of_lt hy; have hz := Int.le_of_lt hz
   show BoundsInv dm (makeObs cfg rnd _).1
   apply makeObs_inv
   refine ⟨rfl, hx, hy, hz, ?_, hi⟩
@@ -282,6 +285,7 @@ theorem reset_obs_in_bounds (cfg : Cfg) (rnd : Rat → Rat) (dm : Dims) (maxEms 
     (itemsMask : List Bool) (h : validReset dm n items itemsMask) :
     InBounds (obsBounds cfg dm) (obsLeaves (reset cfg rnd dm maxEms items itemsMask).2.obs) := by
   obtain ⟨hx, hy, hz, _, _, hi⟩ := h
+  have hx := Int.le_of_lt hx; have hy := Int.le_of_lt hy; have hz := Int.le_of_lt hz
   show InBounds _ (obsLeaves (makeObs cfg rnd _).2)
   apply makeObs_in_bounds
   refine ⟨rfl, hx, hy, hz, ?_, hi⟩
